@@ -181,7 +181,7 @@ def run_io(spec, res):
         data = {'it': list(its), 't': [0.5 * i for i in its],
                 'rho': [rng.normal(size=(3, 4, 2)) for _ in its],
                 'gxx': [rng.normal(size=(3, 4, 2)) for _ in its]}
-        param = {'datapath': tmp + '/'}
+        param = {'datapath': tmp + ('/' if rng.random() < 0.5 else '')}
         vars_ = [['rho'], ['gxx', 'rho'], ['it', 'rho'], ['t', 'gxx'], ['rho', 'it', 't'],
                  ['it']][int(rng.integers(6))]
         if rng.random() < 0.25:
